@@ -30,7 +30,7 @@ def mods():
 
 
 def new_sid(tag='s'):
-    return '%s%05d-%d' % (tag, next(_sid_counter), os.getpid())
+    return '%s%05d-Pid%d-MiXed' % (tag.capitalize(), next(_sid_counter), os.getpid())     # mixed case on purpose: a sid is an opaque string
 
 
 class World:
@@ -163,6 +163,8 @@ class RawConn:
         d.update(extra)
         if typ is None:
             del d['type']
+        if sid == '__omit__':
+            del d['sid']
         try:
             self._run(self.ws.send(pickle.dumps(d)))
             return True
